@@ -271,6 +271,21 @@ def rule_c(repo, chk):
             defs = Q.reaching_defs(g, n, a.id)
             if kind == 'suffix':
                 ok_a = bool(defs) and all(d.kind == 'stmt' and isinstance(d.ast, ast.Assign) and _is_max_zero(d.ast.value) for d in defs)
+                # … and at most the length: the suffix length subtracted is known to be positive
+                for d in defs:
+                    if not ok_a:
+                        break
+                    sub = [x for x in d.ast.value.args if not pat.is_const(x, 0)][0]
+                    sv_ = src(sub.right) if isinstance(sub, ast.BinOp) and isinstance(sub.op, ast.Sub) and src(sub.left) == clen else None
+                    if sv_ is None:
+                        ok_a = False
+                        break
+                    nonneg = pat.guarded_by(g, n, pat.test_edge(lambda tt, pol: pat.fact_matches(pat.compare_fact(tt, pol), sv_, ('>=', '>'), '0') or
+                                                                pat.fact_matches(pat.compare_fact(tt, pol), sv_, ('>=',), '1')))
+                    nonzero = pat.guarded_by(g, n, pat.test_edge(lambda tt, pol: pat.fact_matches(pat.compare_fact(tt, pol), sv_, ('!=', '>'), '0') or
+                                                                 pat.fact_matches(pat.compare_fact(tt, pol), sv_, ('>=',), '1')))
+                    chk.ob('c', f.ref, 'suffix range: the suffix length is known to be positive (a signed or zero suffix is not served)', nonneg is None and nonzero is None,
+                           loc(f, c), path=pat.path_lines(nonneg or nonzero) if (nonneg or nonzero) else None, discr='suffix-positive')
             else:
                 # explicit first-byte-pos: parsed by int() from a non-empty token; satisfiable ranges only (start < length checked)
                 q = pat.guarded_by(g, n, pat.test_edge(lambda tt, pol: pat.fact_matches(pat.compare_fact(tt, pol), a.id, ('<',), clen)))
@@ -282,6 +297,18 @@ def rule_c(repo, chk):
         if kind == 'explicit':
             q = pat.guarded_by(g, n, pat.test_edge(lambda tt, pol: pat.fact_matches(pat.compare_fact(tt, pol), b.left.id if isinstance(b, ast.BinOp) else '?', ('>=',), a.id if isinstance(a, ast.Name) else '?')))
             chk.ob('c', f.ref, 'explicit range: a reversed range is never appended', q is None, loc(f, c), discr='not-reversed')
+            # "reversed ⇒ ignore the header" may only be concluded for a range that starts inside the entity: an open range  gets
+            # length-1 as its end, so for N ≥ length it would look reversed although it is unsatisfiable (416)
+            if isinstance(a, ast.Name) and isinstance(b, ast.BinOp):
+                rev_edges = [e for tn in g.nodes if tn.kind == 'test' for e in tn.succ
+                             if pat.fact_matches(pat.compare_fact(tn.ast, e.kind), b.left.id, ('<',), a.id)]
+                okr = bool(rev_edges)
+                for e in rev_edges:
+                    q2 = pat.guarded_by(g, e.src, pat.test_edge(lambda tt, pol: pat.fact_matches(pat.compare_fact(tt, pol), a.id, ('<',), clen)))
+                    if q2 is not None:
+                        okr = False
+                chk.ob('c', f.ref, 'the reversed-range test (ignore the header) is applied only to ranges that start inside the entity; an unsatisfiable start is '
+                                   'recognised first', okr, loc(f, c), discr='unsatisfiable-before-reversed')
 
 
 def _is_min_clamp(v, sv, clen):
